@@ -14,6 +14,7 @@ ap.add_argument('--props', default=None)
 ap.add_argument('--demo-flags', default='')
 ap.add_argument('--skip-ctest', action='store_true')
 ap.add_argument('--use-hooks', action='store_true')
+ap.add_argument('--hooks-clean', default=None, help='hook diff for the clean tree when it differs from demo_hooks.diff')
 ap.add_argument('--demo', default='demo.cpp')
 ap.add_argument('--runs', type=int, default=1)
 ap.add_argument('--demo-timeout', type=int, default=600)
@@ -46,6 +47,8 @@ try:
             r = sh('cd %s && git apply %s' % (d, patch))
             assert r.returncode == 0, r.stdout
         hooks = os.path.join(out, 'demo_hooks.diff')
+        if name == 'clean' and a.hooks_clean:
+            hooks = os.path.join(out, a.hooks_clean)
         if os.path.exists(hooks) and a.use_hooks:
             r = sh('cd %s && git apply %s' % (d, hooks))
             assert r.returncode == 0, 'demo hooks do not apply (%s): %s' % (name, r.stdout)
